@@ -50,6 +50,28 @@ theorem c06_hw_mono_within_fence {s : State} (h : Inv s) (evs : List Event) : s.
   | nil => exact Nat.le_refl _
   | cons ev rest ih => exact Nat.le_trans (c06_hw_mono_step h ev) (ih (c06_inv_step h ev))
 
+/-- AdvanceHW moves HW only to the MinISR-th highest match among the ISR members
+    (the value the judge recomputes from the implementation's printed progress table) -/
+theorem c06_advanceHW_is_quorum_match (s : State) :
+    (advanceHW s).hw = s.hw ∨
+    (0 < s.minISR ∧ s.minISR ≤ (s.isr.length : Int) ∧
+     (sortDesc (s.isr.map (getP s.progress)))[(s.minISR - 1).toNat]? = some (advanceHW s).hw) := by
+  unfold advanceHW
+  split
+  · left; rfl
+  · next hg =>
+    dsimp only
+    split
+    · left; rfl
+    · next nxt hn =>
+      split
+      · left; rfl
+      · right
+        exact ⟨by omega, by omega, hn⟩
+
+example : (advanceHW ({ leo := 9, isr := [1, 2, 3], minISR := 2,
+                        progress := [(1, 9), (2, 4), (3, 7)] } : State)).hw = 7 := by decide
+
 theorem fenceLe_trans {a b c : State} (h1 : fenceLe a b) (h2 : fenceLe b c) : fenceLe a c := by
   unfold fenceLe at *
   omega
